@@ -1276,6 +1276,9 @@ func (st *Runtime) evalPipeCallExpression(baseExpr reflect.Value, args CallArgs,
 		return reflect.Value{}, fmt.Errorf("call of a nil function (%s)", baseExpr.Type())
 	}
 	if funcType.AssignableTo(baseExpr.Type()) {
+		if pipedArg == nil && args.HasPipeSlot {
+			return reflect.Value{}, fmt.Errorf("placeholder '_' in a call to %s, but no value is piped in", baseExpr.Type())
+		}
 		// also a plain func(Arguments) reflect.Value (VarMap.Set instead of SetFunc) is called like a Func
 		return baseExpr.Convert(funcType).Interface().(Func)(Arguments{runtime: st, args: args, pipedVal: pipedArg}), nil
 	}
